@@ -14,8 +14,13 @@ from ..symc import SymC
 _COUNTER = itertools.count()
 
 
-def _make_function(src, name):
-    """Real function object whose source `inspect.getsource` can find (the library parses the source text)."""
+def _make_function(src, name, indented=False):
+    """Real function object whose source `inspect.getsource` can find (the library parses the source text).
+    indented=True defines it inside a block (as a nested function / method would be): its source text carries leading indentation."""
+    if indented:
+        import textwrap
+
+        src = "if True:\n" + textwrap.indent(src, "    ")
     fname = f"<c09-program-{next(_COUNTER)}>"
     linecache.cache[fname] = (len(src), None, src.splitlines(True), fname)
     ns = {}
@@ -444,6 +449,7 @@ def configs(tier, seed):
     for dims in ([1, 1], [1, 2], [1, 1, 2]):
         for sched in ("asc", "desc", "rand3"):
             jobs.append(("vf.props.dsl", "c09_handwritten", dict(handwritten=True, program="two_inputs", dims=dims, max_order=2, schedule=sched, linear_operator=True)))
+    jobs.append(("vf.props.dsl", "c09_handwritten", dict(handwritten=True, program="recurrence", dims=[1, 2], max_order=2, schedule="asc", indented_def=True)))
     for name in HANDWRITTEN:
         for dims in ([1, 1], [2, 1], [1, 1, 1]):
             for sched in ("asc", "desc", "rand5"):
@@ -583,6 +589,26 @@ HANDWRITTEN = {
 
     return "R"
 ''',
+    "arithmetic_on_absent_terms": '''def program():
+    with "Z":
+        start = 0
+        "A"
+
+    with "C":
+        ("Z" / 2 + "A") / 2 + "Z" / 2 / 2 - "Z".adj / 3 / 1
+
+    with "D":
+        start = 1
+        "A" + "C"
+
+    with "E":
+        "D @ A" + 2 * "Z" - 3 * ("Z" + "Z") / 2
+
+    with "D @ A":
+        pass
+
+    return "C", "D", "E"
+''',
     "recurrence": '''def program():
     with "W":
         start = 0
@@ -615,7 +641,7 @@ def c09_handwritten(cfg):
     dims = cfg["dims"]
     nb = len(dims)
     src = HANDWRITTEN[cfg["program"]]
-    fn = _make_function(src, "program")
+    fn = _make_function(src, "program", indented=bool(cfg.get("indented_def")))
     tables = _inputs(HANDWRITTEN_INPUTS.get(cfg["program"], ["A"]), dims, cfg.get("nparams", 1), cfg["max_order"])
 
     def f(x, index):
